@@ -311,7 +311,17 @@ pub fn layer1_cases(tier: Tier, seed: u64) -> Vec<Case> {
     // special private keys on either side and on both: 0, 1, 2, N-1, N, N+1, all ones (shortcuts for "trivial" exponents,
     // keys replaced on one path only)
     {
-        let special: Vec<[u8; 32]> = vec![[0u8; 32], le32_from_u64(1), le32_from_u64(2), n_plus(-1), n_plus(0), n_plus(1), [0xFF; 32]];
+        let mut special: Vec<[u8; 32]> = vec![[0u8; 32], le32_from_u64(1), le32_from_u64(2), n_plus(-1), n_plus(0), n_plus(1), [0xFF; 32]];
+        // keys with all-zero 32- or 64-bit limbs below, between or above their non-zero limbs (limb-wise exponentiation
+        // or conversion that skips zero limbs in the wrong place)
+        for (from, to) in [(0usize, 8usize), (8, 16), (16, 24), (4, 8), (12, 20), (0, 24), (8, 32), (1, 31)] {
+            let mut k = refmodel::ctr_array::<32>(seed, &format!("special-limb-{from}-{to}"));
+            k[31] &= 0x7F;
+            for x in k[from..to].iter_mut() {
+                *x = 0;
+            }
+            special.push(k);
+        }
         let other = { let mut k = refmodel::ctr_array::<32>(seed, "special-other"); k[31] &= 0x7F; k };
         for sp in &special {
             for (ci, c) in [("alice", "password123"), ("A", "A")].iter().enumerate() {
@@ -354,8 +364,8 @@ pub fn layer2_script_case(seed: u64, i: u64) -> Case {
     salt.copy_from_slice(&bytes[..32]);
     b.copy_from_slice(&bytes[32..64]);
     a.copy_from_slice(&bytes[64..]);
-    // seven of eight scripts keep their private keys below 2^255 (no probe needed, see common::taken_as_is)
-    if i % 8 != 0 {
+    // 63 of 64 scripts keep their private keys below 2^255 (no probe needed, see common::taken_as_is)
+    if i % 64 != 0 {
         b[31] &= 0x7F;
         a[31] &= 0x7F;
     }
